@@ -254,15 +254,20 @@ func ParseWire(b []byte) []WItem {
 // restartRW is what a scripted feature returns as its new io.ReadWriter.
 type restartRW struct{ io.ReadWriter }
 
+// LogOf finds the log of the session a callback belongs to: feature values (and
+// the Negotiator built from them) may be shared by several sessions, so the
+// log travels in the context given to NewSession.
+type LogOf func(ctx context.Context) *Log
+
 // AbstractFeature builds a stream feature whose callbacks log what they are
 // asked and answer from the script.
-func AbstractFeature(f FeatSpec, log *Log, next func(f FeatSpec, st uint8) Outcome) xmpp.StreamFeature {
+func AbstractFeature(f FeatSpec, logOf LogOf, next func(ctx context.Context, f FeatSpec, st uint8) Outcome) xmpp.StreamFeature {
 	sf := xmpp.StreamFeature{
 		Name:       xml.Name{Space: f.Space, Local: f.Local},
 		Necessary:  xmpp.SessionState(f.Nec),
 		Prohibited: xmpp.SessionState(f.Proh),
 		Parse: func(ctx context.Context, d *xml.Decoder, start *xml.StartElement) (bool, interface{}, error) {
-			log.Add(CB{K: "parse", Space: f.Space, Local: f.Local})
+			logOf(ctx).Add(CB{K: "parse", Space: f.Space, Local: f.Local})
 			var req, perr bool
 			for _, a := range start.Attr {
 				switch a.Name.Local {
@@ -284,8 +289,8 @@ func AbstractFeature(f FeatSpec, log *Log, next func(f FeatSpec, st uint8) Outco
 	if f.Neg {
 		sf.Negotiate = func(ctx context.Context, s *xmpp.Session, data interface{}) (xmpp.SessionState, io.ReadWriter, error) {
 			st := s.State()
-			o := next(f, uint8(st))
-			log.Add(CB{K: "neg", Space: f.Space, Local: f.Local, St: uint8(st), O: &o})
+			o := next(ctx, f, uint8(st))
+			logOf(ctx).Add(CB{K: "neg", Space: f.Space, Local: f.Local, St: uint8(st), O: &o})
 			var rw io.ReadWriter
 			if o.Restart {
 				rw = restartRW{s.Conn()}
@@ -302,12 +307,12 @@ func AbstractFeature(f FeatSpec, log *Log, next func(f FeatSpec, st uint8) Outco
 
 // LoggedFeature wraps a real feature: Parse and Negotiate calls are logged,
 // everything else is the feature's own.
-func LoggedFeature(f xmpp.StreamFeature, log *Log) xmpp.StreamFeature {
+func LoggedFeature(f xmpp.StreamFeature, logOf LogOf) xmpp.StreamFeature {
 	parse, neg := f.Parse, f.Negotiate
 	sp, lo := f.Name.Space, f.Name.Local
 	if parse != nil {
 		f.Parse = func(ctx context.Context, d *xml.Decoder, start *xml.StartElement) (bool, interface{}, error) {
-			log.Add(CB{K: "parse", Space: sp, Local: lo})
+			logOf(ctx).Add(CB{K: "parse", Space: sp, Local: lo})
 			return parse(ctx, d, start)
 		}
 	}
@@ -316,7 +321,7 @@ func LoggedFeature(f xmpp.StreamFeature, log *Log) xmpp.StreamFeature {
 			st := s.State()
 			mask, rw, err := neg(ctx, s, data)
 			o := Outcome{Mask: uint8(mask), Restart: rw != nil, Err: err != nil}
-			log.Add(CB{K: "neg", Space: sp, Local: lo, St: uint8(st), O: &o})
+			logOf(ctx).Add(CB{K: "neg", Space: sp, Local: lo, St: uint8(st), O: &o})
 			return mask, rw, err
 		}
 	}
